@@ -107,6 +107,9 @@ Keyed(L) ==
             sc("msg-checksum1-wrong", KeyedPkt(enc([full EXCEPT ![3] = (@ + 1) % 256]))),
             sc("msg-checksum2-wrong", KeyedPkt(enc([full EXCEPT ![Len(full)] = (@ + 1) % 256]))),
             sc("msg-request-netfn", KeyedPkt(enc(MsgReqBytes(129, NetFn, 0, 32, 1, 0, Cmd, ValA(L))))),
+            \* one block whose pad claims 16 bytes: only 15 precede the length byte, the 16th would be the IV's last byte
+            sc("pad-16-reaching-into-iv", KeyedPkt(Cat(<< B([Iv(1) EXCEPT ![16] = 1]), Aes(Ref("K2"), B([Iv(1) EXCEPT ![16] = 1]), B([i \in 1..15 |-> i + 1] \o <<16>>)) >>))),
+            sc("pad-15-no-message", KeyedPkt(Cat(<< B(Iv(1)), Aes(Ref("K2"), B(Iv(1)), B([i \in 1..15 |-> i] \o <<15>>)) >>))),
             sc("payload-iv-only", KeyedPkt(B(Iv(1)))),
             sc("payload-empty", KeyedPkt(B(<<>>))),
             sc("payload-17-bytes", KeyedPkt(B(Iv(1) \o <<1>>))),
